@@ -271,7 +271,7 @@ def stabilizer_lists(rep, svh, rng, count):
                 if j != k and rng.random() < 0.3:
                     p = p * stabs[j]
             mixed.append(p)
-        kind = rng.choice(['valid', 'valid', 'redundant', 'under', 'anticommuting', 'contradictory'])
+        kind = rng.choice(['valid', 'valid', 'redundant', 'under', 'under_redundant', 'under_redundant', 'anticommuting', 'contradictory'])
         lst = [p.hermitian_str() for p in stabs]      # independent by construction
         allow_red = rng.random() < 0.5
         allow_under = rng.random() < 0.5
@@ -282,6 +282,20 @@ def stabilizer_lists(rep, svh, rng, count):
         elif kind == 'under' and n >= 2:
             lst = lst[:-1]
             expect_err = not allow_under
+        elif kind == 'under_redundant' and n >= 2:
+            # rank below n, but the list is padded with redundant entries (repeats, products, identities) to length >= n
+            lst = lst[:-rng.choice([1, 1, 2]) or None] if n >= 3 else lst[:-1]
+            while len(lst) < n + rng.choice([0, 0, 1]):
+                how = rng.random()
+                if how < 0.4 or len(lst) < 2:
+                    lst.append(rng.choice(lst) if lst else '+' + '_' * n)
+                elif how < 0.8:
+                    a, b = rng.sample(range(len(lst)), 2)
+                    lst.append((pauli.P.from_str(lst[a]) * pauli.P.from_str(lst[b])).hermitian_str())
+                else:
+                    lst.append('+' + '_' * n)
+            rng.shuffle(lst)
+            expect_err = not (allow_red and allow_under)
         elif kind == 'anticommuting':
             lst[0] = A.xs[0].hermitian_str()
             lst.append(A.zs[0].hermitian_str())
